@@ -17,10 +17,10 @@ CONSTANTS
   PolicyNames = {"b0"}
   MaxTicks = 2
   MaxPol = 0
-  MaxFaults = 0
-  MaxRestart = 1
-  WithW2 = FALSE
-  Export = FALSE
+  MaxFaults = 1
+  MaxRestart = 0
+  WithW2 = TRUE
+  Export = TRUE
 VIEW MC_View
 INVARIANTS AtMostOncePerHead CommittedIsLog PendingIsSet CorrelationsSound FaultIndexesConsistent
 PROPERTIES RetryChangesNothing IngestDisposition AdmittedLaw NothingLost
